@@ -245,3 +245,29 @@ package fzf
 //@ use @"if i >= 0" firstSep_skip(s, 0, i >= 0 ? i : len(s))
 //@ loop 1
 //@   invariant 0 <= code && code == decVal(s, iter) && allDigits(s, iter)
+
+// ---------------------------------------------------------------- tokenizer
+//@ spec func isBlank(c byte) bool = c == 9 || c == 32
+// blanks(s, i): first index >= i that does not hold a blank
+//@ spec func blanks(s string, i int) int = (i < len(s) && (s[i] == 9 || s[i] == 32)) ? blanks(s, i + 1) : i decreases len(s) - i
+
+// AWK-style splitting: the leading blank run is the prefix; the tokens are consecutive substrings that
+// partition the rest of the line, each a non-blank run followed by a (possibly empty) blank run.
+//@ func awkTokenizer
+//@ property C10
+//@ ensures r1 == blanks(input, 0) && 0 <= r1 && r1 <= len(input)
+//@ ensures forall(k, 0, len(r0), r0[k].arr == input.arr && len(r0[k]) >= 1 && !isBlank(r0[k][0]))
+//@ ensures len(r0) > 0 ==> r0[0].off == input.off + r1 && r0[len(r0)-1].off + len(r0[len(r0)-1]) == input.off + len(input)
+//@ ensures forall(k, 1, len(r0), r0[k].off == r0[k-1].off + len(r0[k-1]))
+//@ ensures len(r0) == 0 ==> r1 == len(input)
+//@ loop 1
+//@   invariant 0 <= idx && idx <= len(input) && 0 <= state && state <= 2 && 0 <= prefixLength && prefixLength <= idx && fresh(ret)
+//@   invariant state == 0 ==> prefixLength == idx && len(ret) == 0 && begin == 0 && end == 0 && blanks(input, 0) == blanks(input, idx)
+//@   invariant state != 0 ==> prefixLength == blanks(input, 0) && prefixLength <= begin && begin < end && end == idx && !isBlank(input[begin])
+//@   invariant state == 1 ==> !isBlank(input[idx - 1])
+//@   invariant state == 2 ==> isBlank(input[idx - 1])
+//@   invariant forall(k, 0, len(ret), ret[k].arr == input.arr && len(ret[k]) >= 1 && !isBlank(ret[k][0]))
+//@   invariant forall(k, 1, len(ret), ret[k].off == ret[k-1].off + len(ret[k-1]))
+//@   invariant len(ret) > 0 ==> ret[0].off == input.off + prefixLength && ret[len(ret)-1].off + len(ret[len(ret)-1]) == input.off + begin
+//@   invariant len(ret) == 0 && state != 0 ==> begin == prefixLength
+//@   decreases len(input) - idx
